@@ -63,8 +63,8 @@ def train (F : Fns α) (G : Nat → List (List α) → List (List α)) : Nat →
   | t, n + 1, s => train F G (t + 1) n (trainStep F G t s)
 
 /-- what is compared: everything but the gradients -/
-def obs (s : State α) : Opt α × List (List α × List (String × List α)) :=
-  (s.o, s.ps.map (fun p => (p.value, p.stats)))
+def obs (s : State α) : Opt α × List (Bool × List α × List (String × List α)) :=
+  (s.o, s.ps.map (fun p => (p.valid, p.value, p.stats)))
 
 /-- the gradient of `½·a·v² + b·v`, used by the driver's `lgrad` -/
 def affineGrad (a b v : List α) : List α :=
